@@ -55,6 +55,7 @@ def strMerge (name : String) : Bytes → Bytes → Bytes := fun v d =>
   match name with
   | "concat" => v ++ d
   | "keep" => v
+  | "tail" => if d.length > 2 then d.drop (d.length - 2) else v ++ d
   | "rec-concat" => if isBadRec v || isBadRec d then v else v ++ d   -- record column, harness type
   | "rec-default" => if isBadRec v || isBadRec d then v else d
   | _ => d
